@@ -118,7 +118,8 @@ fn accented_function_words(lang: &str) -> Vec<&'static str> {
 
 impl Token {
     fn variants_case(&self, cx: &mut Cx, lang: &'static str) {
-        let acc = oracle::accents(lang);
+        let mut acc = oracle::accents(lang);
+        acc.extend(oracle::reduced_pairs(lang));
         let exp = oracle::expanding_table(lang);
         let base = gen::lower_alphabet(lang);
         let fw = accented_function_words(lang);
@@ -192,7 +193,24 @@ impl Token {
             }
             for &c in &q {
                 let mut piece: Vec<char> = vec![c];
-                if let Some(e) = acc.iter().find(|e| e.composed == c) {
+                if let Some(e) = oracle::reduced_pairs(lang).iter().find(|e| e.composed == c) {
+                    // both spellings are in the reduction table: decomposed, or folded as the table says
+                    match cx.rng.below(3) {
+                        0 => {
+                            piece = vec![e.base, e.mark];
+                            kinds.push("decomposed");
+                            cx.count(&format!("letter {} decomposed", c));
+                        }
+                        1 => {
+                            if let Some(x) = exp.iter().find(|x| x.0 == c) {
+                                piece = cv(x.1);
+                                kinds.push("folded");
+                                cx.count(&format!("letter {} folded", c));
+                            }
+                        }
+                        _ => {}
+                    }
+                } else if let Some(e) = acc.iter().find(|e| e.composed == c) {
                     // (a language that composes without folding knows no "folded" spelling)
                     match cx.rng.below(if oracle::folds_composed(lang) { 3 } else { 1 }) {
                         0 => {
@@ -247,11 +265,12 @@ impl Token {
                 cx.sample(|| json!({"lang": lang, "titles": titles, "query": qs, "variant": var, "kinds": kinds, "hits": base_res.len()}));
             }
         }
-        // stored decomposed vs stored precomposed
+        // stored decomposed vs stored precomposed (for the letters the language COMPOSES: only those come back precomposed)
+        let composing = oracle::accents(lang);
         let recs_d: Vec<Rec> = recs
             .iter()
             .map(|(i, t, r)| {
-                let d: String = t.chars().map(|c| acc.iter().find(|e| e.composed == c).map(|e| format!("{}{}", e.base, e.mark)).unwrap_or_else(|| c.to_string())).collect();
+                let d: String = t.chars().map(|c| composing.iter().find(|e| e.composed == c).map(|e| format!("{}{}", e.base, e.mark)).unwrap_or_else(|| c.to_string())).collect();
                 (*i, d, *r)
             })
             .collect();
